@@ -113,4 +113,125 @@ def firstUnsafe (tr : List Op) (fs : Fs) (t : Path) : Option Nat :=
     let c := run (tr.take n) fs t
     !(c == fs t || c == run tr fs t)
 
+/-- `crashStates` computed in one pass (what the driver evaluates; `crashStates_eq_scan` in Props/C14) -/
+def scanStates : List Op → Fs → Path → List (Option Content)
+  | [], fs, t => [fs t]
+  | o :: tr, fs, t => fs t :: scanStates tr (apply fs o) t
+
+/-- `firstUnsafe` on a list of crash states -/
+def firstUnsafeIn (states : List (Option Content)) (old fin : Option Content) : Option Nat :=
+  (List.range states.length).find? fun n =>
+    match states[n]? with
+    | some c => !(c == old || c == fin)
+    | none => false
+
 end St4sd.FsAtomic
+
+/-!
+# Typed values stored in the YAML / JSON state files (property C14, read-back clause)
+
+The instance description, the manifest and the status details hold *typed* values: null, booleans,
+integers, floats, strings, sequences and mappings.  Python's `==` identifies values of different
+types (`1 == True == 1.0`, `0 == False == 0.0 == -0.0`, `3 == 3.0`, also inside sequences and
+mappings), the files do not: `3` and `3.0`, `1` and `true` are different documents and load as
+different values.  "Reading back returns exactly the values last written" is therefore a statement
+about *structural* equality of typed values (`=` on `YVal`), not about Python's `==` (`pyEq`).
+
+Floats are exact dyadic rationals `m / 2^e` (what `float.as_integer_ratio` returns); the special
+floats are `fspec 0` = `-0.0`, `fspec 1` = `inf`, `fspec 2` (and above) = `-inf` (NaN is not generated: it is
+not equal to itself).  A mapping is the list `k₀, v₀, k₁, v₁, …` of its entries in the canonical
+order of its keys (the harness sorts; the keys of one Python `dict` are pairwise `==`-different),
+so that structural equality of `YVal` is equality of mappings irrespective of insertion order.
+-/
+namespace St4sd.TypedStore
+
+mutual
+inductive YVal where
+  | null
+  | bool (b : Bool)
+  | int (i : Int)
+  | float (m : Int) (e : Nat)
+  | fspec (k : Nat)
+  | str (s : List Nat)
+  | seq (xs : YList)
+  | map (kvs : YList)
+inductive YList where
+  | nil
+  | cons (v : YVal) (t : YList)
+end
+
+mutual
+def YVal.beq : YVal → YVal → Bool
+  | .null, .null => true
+  | .bool a, .bool b => a == b
+  | .int a, .int b => a == b
+  | .float m e, .float m' e' => m == m' && e == e'
+  | .fspec a, .fspec b => a == b
+  | .str a, .str b => a == b
+  | .seq a, .seq b => YList.beq a b
+  | .map a, .map b => YList.beq a b
+  | _, _ => false
+def YList.beq : YList → YList → Bool
+  | .nil, .nil => true
+  | .cons a s, .cons b t => YVal.beq a b && YList.beq s t
+  | _, _ => false
+end
+
+/-- numeric reading of a scalar as Python's `==` sees it: `some (inl (m, e))` = the finite number
+`m / 2^e`, `some (inr false)` = `+inf`, `some (inr true)` = `-inf`, `none` = not a number -/
+def numOf : YVal → Option (Sum (Int × Nat) Bool)
+  | .bool b => some (.inl (if b then 1 else 0, 0))
+  | .int i => some (.inl (i, 0))
+  | .float m e => some (.inl (m, e))
+  | .fspec 0 => some (.inl (0, 0))
+  | .fspec 1 => some (.inr false)
+  | .fspec _ => some (.inr true)
+  | _ => none
+
+def numEq : Sum (Int × Nat) Bool → Sum (Int × Nat) Bool → Bool
+  | .inl (m, e), .inl (m', e') => m * (2 : Int) ^ e' == m' * (2 : Int) ^ e
+  | .inr a, .inr b => a == b
+  | _, _ => false
+
+mutual
+/-- Python's `a == b` on loaded YAML / JSON values -/
+def pyEq : YVal → YVal → Bool
+  | .null, .null => true
+  | .str a, .str b => a == b
+  | .seq a, .seq b => pyEqL a b
+  | .map a, .map b => pyEqL a b
+  | .null, _ => false
+  | .str _, _ => false
+  | .seq _, _ => false
+  | .map _, _ => false
+  | a, b =>
+    match numOf a, numOf b with
+    | some x, some y => numEq x y
+    | _, _ => false
+def pyEqL : YList → YList → Bool
+  | .nil, .nil => true
+  | .cons a s, .cons b t => pyEq a b && pyEqL s t
+  | _, _ => false
+end
+
+/-- the typed content of one state file: `none` = no (loadable) file yet -/
+abbrev Stored := Option YVal
+
+/-- the update the anchored code performs: dump the new document and rename it over the target -/
+def writeAlways (_ : Stored) (v : YVal) : Stored := some v
+
+/-- an update that first loads the file and skips the write when `eq loaded new` holds -/
+def writeSkip (eq : YVal → YVal → Bool) (f : Stored) (v : YVal) : Stored :=
+  match f with
+  | some w => if eq w v then some w else some v
+  | none => some v
+
+/-- the file after a history of updates -/
+def runStore (w : Stored → YVal → Stored) (init : Stored) (h : List YVal) : Stored := h.foldl w init
+
+/-- what a reader sees after every update of the history -/
+def readBacks (w : Stored → YVal → Stored) : Stored → List YVal → List Stored
+  | _, [] => []
+  | f, v :: h => w f v :: readBacks w (w f v) h
+
+end St4sd.TypedStore
